@@ -91,7 +91,9 @@ pub fn block_on<F: Future>(mut fut: F) -> F::Output {
 }
 
 pub fn quiet_panics() {
-    std::panic::set_hook(Box::new(|_| {}));
+    if std::env::var("VERIF_LOUD").is_err() {
+        std::panic::set_hook(Box::new(|_| {}));
+    }
 }
 
 pub fn catch<T>(f: impl FnOnce() -> T) -> Option<T> {
